@@ -64,11 +64,17 @@ def _pairs(ctx, tag, n1, n2, k):
     return ps, ss
 
 
-def _values(ctx, name, shape, nanable=True):
-    """object (sym) / float (concrete) array; each element may be NaN (symbolic flag)."""
+def _values(ctx, name, shape, nanable=True, nsym=None):
+    """object (sym) / float (concrete) array; each element may be NaN (symbolic flag).
+    Only the first `nsym` rows are symbolic, the remaining rows hold the constant 1.5."""
     n = int(np.prod(shape))
+    per_row = n // shape[0]
+    nsym = shape[0] if nsym is None else nsym
     out = np.empty(n, dtype=object if ctx.sym else float)
     for i in range(n):
+        if i >= nsym * per_row:
+            out[i] = 1.5
+            continue
         v = ctx.real("%s%d" % (name, i))
         if nanable and bool(ctx.bool("%snan%d" % (name, i))):
             out[i] = float("nan")
@@ -77,19 +83,29 @@ def _values(ctx, name, shape, nanable=True):
     return out.reshape(shape)
 
 
-def _compact(ctx, tag, n1, n2, k, nanable=True, t0=0):
+def _compact(ctx, tag, n1, n2, k, nanable=True, t0=0, filler=0):
+    """filler > 0 appends that many extra pairs (extra point f of either group paired with each
+    other, then all symbolic pairs keep their arbitrary order in front) so that the >= 1000-pair
+    code path of collapse is taken while the interesting part stays small and unsorted."""
     ps, ss = _pairs(ctx, tag, n1, n2, k)
+    s1, s2 = n1, n2          # number of points with symbolic data
+    if filler:
+        m1, m2 = n1, n2
+        nf = filler
+        ps = ps + [m1 + (i % 7) for i in range(nf)]
+        ss = ss + [m2 + (i % 5) for i in range(nf)]
+        n1, n2, k = n1 + 7, n2 + 5, k + nf
     ds = xr.Dataset()
     base = np.datetime64("2020-01-01T00:00:00")
     ds["P/time"] = ("P/collocation", base + np.arange(t0, t0 + n1).astype("timedelta64[s]"))
     ds["P/lat"] = ("P/collocation", np.linspace(0., 1., n1))
     ds["P/lon"] = ("P/collocation", np.linspace(5., 6., n1))
-    ds["P/val"] = ("P/collocation", _values(ctx, tag + "pv", (n1,), nanable))
+    ds["P/val"] = ("P/collocation", _values(ctx, tag + "pv", (n1,), nanable, s1))
     ds["S/time"] = ("S/collocation", base + np.arange(t0, t0 + n2).astype("timedelta64[s]"))
     ds["S/lat"] = ("S/collocation", np.linspace(0., 1., n2))
     ds["S/lon"] = ("S/collocation", np.linspace(5., 6., n2))
-    ds["S/val"] = ("S/collocation", _values(ctx, tag + "sv", (n2,), nanable))
-    ds["S/bt"] = (("S/collocation", "S/channel"), _values(ctx, tag + "sb", (n2, 2), nanable))
+    ds["S/val"] = ("S/collocation", _values(ctx, tag + "sv", (n2,), nanable, s2))
+    ds["S/bt"] = (("S/collocation", "S/channel"), _values(ctx, tag + "sb", (n2, 2), nanable, s2))
     ds["Collocations/pairs"] = (("Collocations/group", "Collocations/collocation"),
                                 np.array([ps, ss], dtype=int))
     ds["Collocations/interval"] = ("Collocations/collocation", np.arange(k).astype(float))
@@ -119,15 +135,21 @@ def _sizes(tier):
     return s
 
 
-@harness("C13.collapse", cases=lambda tier: [(s, ref) for s in _sizes(tier) for ref in ("P", "S")],
+@harness("C13.collapse", cases=lambda tier: [(s, ref) for s in _sizes(tier) for ref in ("P", "S")]
+         + [((2, 2, 3, 1000), "P"), ((2, 2, 3, 1000), "S")],
          expect=lambda c: ["one-row-per-reference-point", "mean", "std", "number", "reference-data-kept"])
 def k_collapse(ctx):
-    (n1, n2, k), ref = ctx.case
-    ds, ps, ss = _compact(ctx, "a", n1, n2, k)
+    size, ref = ctx.case
+    n1, n2, k = size[:3]
+    filler = size[3] if len(size) > 3 else 0
+    ds, ps, ss = _compact(ctx, "a", n1, n2, k, filler=filler)
+    if filler:
+        ps, ss = list(ds["Collocations/pairs"].values[0]), list(ds["Collocations/pairs"].values[1])
+        k = len(ps)
     with _env(ctx):
         out = CC.collapse(ds, reference=ref)
     other = "S" if ref == "P" else "P"
-    nref = n1 if ref == "P" else n2
+    nref = ds.sizes["P/collocation"] if ref == "P" else ds.sizes["S/collocation"]
     ref_idx, oth_idx = (ps, ss) if ref == "P" else (ss, ps)
     ctx.check("one-row-per-reference-point", out.sizes.get("collocation") == nref,
               detail=repr(dict(out.sizes)))
@@ -180,18 +202,18 @@ def k_expand(ctx):
     ctx.check("metadata-kept", list(ex["Collocations/interval"].values) == list(ds["Collocations/interval"].values))
 
 
-@harness("C13.concat", cases=lambda tier: [((1, 1, 1), (1, 1, 1)), ((1, 2, 2), (2, 1, 2)), ((2, 2, 2), (1, 1, 1))]
+@harness("C13.concat", cases=lambda tier: [((1, 1, 1), (1, 1, 1)), ((1, 2, 2), (2, 1, 2)), ((2, 2, 2), (1, 1, 1)),
+                                           ((1, 2, 2), (2, 1, 2), (1, 1, 1)), ((1, 1, 1), (1, 2, 2), (2, 2, 2), (1, 1, 1))]
          + ([((2, 2, 3), (2, 2, 2)), ((2, 1, 2), (2, 2, 3))] if tier == "thorough" else []),
          expect=lambda c: ["expand-of-concat-is-concat-of-expands", "pairs-valid-after-concat", "every-point-used"])
 def k_concat(ctx):
-    sa, sb_ = ctx.case
-    a, aps, ass = _compact(ctx, "a", *sa, nanable=False)
-    b, bps, bss = _compact(ctx, "b", *sb_, nanable=False, t0=10)
+    sizes = ctx.case
+    parts = [_compact(ctx, "abcd"[i], *sz, nanable=False, t0=10 * i)[0] for i, sz in enumerate(sizes)]
     with _env(ctx):
-        ea, eb = CC.expand(a), CC.expand(b)
-        merged = CL.concat_collocations([a.copy(deep=True), b.copy(deep=True)])
+        exps = [CC.expand(p) for p in parts]
+        merged = CL.concat_collocations([p.copy(deep=True) for p in parts])
         em = CC.expand(merged)
-    k = sa[2] + sb_[2]
+    k = sum(sz[2] for sz in sizes)
     ctx.check("expand-of-concat-is-concat-of-expands", em.sizes.get("collocation") == k)
     pairs = merged["Collocations/pairs"].values
     n1, n2 = merged.sizes["P/collocation"], merged.sizes["S/collocation"]
@@ -200,7 +222,7 @@ def k_concat(ctx):
     ctx.check("every-point-used", set(pairs[0].tolist()) == set(range(n1))
               and set(pairs[1].tolist()) == set(range(n2)))
     for var in ("P/val", "S/val", "S/bt"):
-        want = np.concatenate([ea[var].values, eb[var].values], axis=0)
+        want = np.concatenate([e[var].values for e in exps], axis=0)
         got = em[var].values
         ctx.check("expand-of-concat-is-concat-of-expands", got.shape == want.shape)
         if got.shape == want.shape:
